@@ -347,7 +347,7 @@ def r_method_shims(text, chars=(), clone_shims=None):
                 changed = True
                 break
             # X.trim() / X.starts_with(A) / X.ends_with(A) / X.contains(A) on strings (A a char or str literal)
-            if t[0] == 'id' and t[1] in ('trim', 'starts_with', 'ends_with', 'contains', 'trim_end') and k >= 2 and is_p(toks[k - 1], '.') \
+            if t[0] == 'id' and t[1] in ('trim', 'starts_with', 'ends_with', 'contains', 'trim_end', 'trim_start') and k >= 2 and is_p(toks[k - 1], '.') \
                     and k + 1 < n and is_p(toks[k + 1], '('):
                 c = match_close(toks, k + 1)
                 arg = text[toks[k + 1][3]:toks[c][2]].strip()
@@ -355,11 +355,11 @@ def r_method_shims(text, chars=(), clone_shims=None):
                 recv = text[toks[ls][2]:toks[k - 2][3]]
                 r = recv if recv.startswith('&') else '&' + recv
                 rep = None
-                if t[1] in ('trim', 'trim_end') and arg == '':
+                if t[1] in ('trim', 'trim_end', 'trim_start') and arg == '':
                     rep = 'vx_%s(%s)' % (t[1], r)
-                elif t[1] != 'trim' and (arg.startswith("'") or arg in chars):
+                elif t[1] not in ('trim', 'trim_start') and (arg.startswith("'") or arg in chars):
                     rep = 'vx_%s_char(%s, %s)' % (t[1], r, arg)
-                elif t[1] != 'trim' and arg.startswith('"'):
+                elif t[1] not in ('trim', 'trim_start') and arg.startswith('"'):
                     rep = 'vx_%s_str(%s, %s)' % (t[1], r, arg)
                 if rep is not None:
                     s, e = toks[ls][2], toks[c][3]
